@@ -48,12 +48,12 @@ MIN_COUNTERS = {
               'cond_waits_hung_checked': 300, 'ctx_checks': 20000,
               'mt_histories': 500, 'mt_concurrent_next_calls': 5000,
               'fault_cases': 40, 'fault_release_attempts_that_raised': 20,
-              'pause_resume_cases': 300},
+              'pause_resume_cases': 300, 'cond_race_cases': 100},
     'thorough': {'fsm_ops_compared': 4000000, 'fsm_inside_ops': 500000,
                  'cond_waits_hung_checked': 60000, 'ctx_checks': 4000000,
                  'mt_histories': 30000, 'mt_concurrent_next_calls': 300000,
                  'fault_cases': 2000, 'fault_release_attempts_that_raised': 1000,
-                 'pause_resume_cases': 30000},
+                 'pause_resume_cases': 30000, 'cond_race_cases': 5000},
 }
 
 
@@ -78,6 +78,9 @@ def plan(tier, seed):
         for p, (f, n) in enumerate(split(80, 2)):
             shards.append(dict(name=f'cfault{p}', mode='rt', kind='cond-fault',
                                first_case=f, n=n, secs=40, hard_timeout=160))
+        for p, (f, n) in enumerate(split(300, 2)):
+            shards.append(dict(name=f'crace{p}', mode='rt', kind='cond-race',
+                               first_case=f, n=n, secs=30, hard_timeout=160))
     else:
         for p, (f, n) in enumerate(split(2400000, 12)):
             shards.append(dict(name=f'fsm{p}', mode='nrt', kind='fsm', first_case=f,
@@ -97,6 +100,9 @@ def plan(tier, seed):
         for p, (f, n) in enumerate(split(6000, 6)):
             shards.append(dict(name=f'cfault{p}', mode='rt', kind='cond-fault',
                                first_case=f, n=n, secs=520, hard_timeout=700))
+        for p, (f, n) in enumerate(split(40000, 4)):
+            shards.append(dict(name=f'crace{p}', mode='rt', kind='cond-race',
+                               first_case=f, n=n, secs=500, hard_timeout=700))
         for i in range(3):
             shards.append(dict(name=f'crt{i}', mode='rt', kind='cond-rt', secs=120,
                                batch=[20, 40, 60][i], p_yield=[0.0, 0.03, 0.1][i],
@@ -950,6 +956,117 @@ def run_cond_fault(spec, acc):
 # (e) pause / resume and stop / reset / play of a routine that plays on a clock
 # ---------------------------------------------------------------------------
 
+def run_cond_race(spec, acc):
+    """A signal issued by another operating-system thread while a routine is in
+    the middle of `Condition.wait()`.  The condition's test is user code that
+    takes its time: on the evaluation made by `wait()` it lets a plain thread
+    (or the task of another clock) go, which makes the condition true and calls
+    `signal()` / `unhang()`; the test then returns what it read at its start
+    (false).  "Resumes exactly once after the condition holds and is signalled":
+    the signal cannot have come too early for the waiter - either the waiter is
+    queued when the signal runs, or the signal waits for it - so the routine
+    must resume (once) within a generous bound.  FlowVar variant: the value is
+    assigned by the other thread while yield injection runs on `Condition.wait`
+    (no user code runs inside a FlowVar's wait)."""
+    from sc3.base.main import main
+    from sc3.base import clock as clk, stream as stm
+    from sc3.base.functions import Function
+    from vf.inject import Injector, func_code
+    t_stop = time.time() + spec['shard']['secs']
+    inj = Injector([func_code(stm.Condition.wait), func_code(stm.Condition.signal),
+                    func_code(stm.Condition.unhang)], spec['seed'])
+    inj.p_yield = 0.3
+    inj.start()
+    tc = clk.TempoClock(2.0)
+    try:
+        for i in iter_cases(spec):
+            if time.time() > t_stop:
+                break
+            rng = case_rng(spec['seed'], 'C11', 'crace', i)
+            how = rng.choice(['signal', 'signal', 'unhang', 'flow'])
+            who = rng.choice(['thread', 'thread', 'SystemClock', 'AppClock'])
+            wclock = rng.choice([clk.SystemClock, tc])
+            st = {'flag': False, 'evals': 0}
+            go = threading.Event()
+            resumed = []
+            hold = rng.choice([0.002, 0.01, 0.03])
+
+            def test():
+                v = st['flag']
+                st['evals'] += 1
+                if not v and not go.is_set():
+                    go.set()            # the signalling side may run now ...
+                    time.sleep(hold)    # ... while this evaluation is still under way
+                return v
+            cond = stm.Condition(test)
+            fv = stm.FlowVar()
+
+            def body():
+                if how == 'flow':
+                    go.set()
+                    v = yield from fv.value
+                    resumed.append(('flow', v))
+                else:
+                    yield from cond.wait()
+                    resumed.append(('cond', st['flag']))
+                yield 0
+                resumed.append(('after',))
+            r = stm.Routine(body)
+            err = []
+
+            def release():
+                try:
+                    if how == 'flow':
+                        fv.value = 7
+                    else:
+                        st['flag'] = True
+                        getattr(cond, how)()
+                except Exception as e:      # noqa
+                    err.append(repr(e))
+
+            def release_task():     # (no parameters: arguments go by count)
+                release()
+
+            def releaser():
+                if not go.wait(5.0):
+                    err.append('wait() never evaluated the test')
+                    return
+                if who == 'thread':
+                    release()
+                else:
+                    getattr(clk, who).sched(0, Function(release_task))
+            th = threading.Thread(target=releaser, daemon=True, name='vf-releaser')
+            th.start()
+            r.play(wclock) if wclock is clk.SystemClock else r.play(wclock, 0)
+            t_end = time.time() + 3.0
+            while len(resumed) < 2 and time.time() < t_end:
+                time.sleep(0.002)
+            th.join(1.0)
+            acc.count('cond_race_cases')
+            acc.count(f'cond_race/{how}/from-{who}')
+            acc.case(h64(('crace', i)), nontrivial=True)
+            with main._main_lock:
+                got = list(resumed)
+            wit = {'case': i, 'how': how, 'from': who, 'hold_s': hold, 'resumed': got,
+                   'test_evaluations': st['evals'], 'errors': err,
+                   'clock': 'SystemClock' if wclock is clk.SystemClock else 'TempoClock'}
+            if err:
+                acc.violation(f'C11/cond-race/release-raised/{how}', wit)
+            elif not got:
+                acc.violation(f'C11/waiter-not-resumed-after-signal/concurrent-{how}/from-{who}',
+                              wit)
+            elif len(got) != 2 or (how != 'flow' and got[0] != ('cond', True)) \
+                    or (how == 'flow' and got[0] != ('flow', 7)):
+                acc.violation(f'C11/cond-race/wrong-resumption/{how}', wit)
+            else:
+                acc.count('cond_race_resumed_once')
+            r.stop()
+    finally:
+        inj.stop()
+        tc.stop()
+    acc.count('injected_yields', inj.injected)
+
+
 def run_pause_resume(spec, acc):
     """A routine yielding a constant delta plays on a real clock; a controller
     routine pauses and resumes it (or stops, resets and plays it again) between
@@ -1077,6 +1194,8 @@ def run_shard(spec, acc):
         return run_pause_resume(spec, acc)
     if kind == 'fsm-mt':
         return run_fsm_mt(spec, acc)
+    if kind == 'cond-race':
+        return run_cond_race(spec, acc)
     if kind == 'cond-fault':
         return run_cond_fault(spec, acc)
     if kind == 'fsm':
